@@ -156,6 +156,18 @@ func c12Profile(r *Rng, wrapIDs bool) *profile.Profile {
 			f.Name, f.SystemName = sys, sys
 		}
 	}
+	if r.P(1, 3) {
+		// small sparse ids in random order: len(Function)+1 is often taken
+		perm := map[uint64]bool{}
+		for _, f := range p.Function {
+			id := uint64(1 + r.Intn(2*len(p.Function)+2))
+			for perm[id] {
+				id = uint64(1 + r.Intn(2*len(p.Function)+2))
+			}
+			perm[id] = true
+			f.ID = id
+		}
+	}
 	if wrapIDs && len(p.Function) > 0 {
 		// function ids right below 2^64: the next id wraps to the reserved 0
 		used := map[uint64]bool{}
@@ -468,7 +480,7 @@ func c12Sym(c *Ctx, gen, mode string, p *profile.Profile, ms plugin.MappingSourc
 func runC12(c *Ctx) {
 	r := c.R
 	// 1. whole-Symbolize cases: random valid profile x mode x script x sources
-	n := c.Budget(1300, 40000)
+	n := c.Budget(800, 20000)
 	for k := 0; k < n; k++ {
 		p := c12Profile(r, false)
 		ms := c12Sources_(r, p)
@@ -479,7 +491,7 @@ func runC12(c *Ctx) {
 		c12Sym(c, "random", mode, p, ms, c12ScriptGen(r, p, ms, 7))
 	}
 	// 2. no failures: everything answers, so that symbolization goes deep
-	for k := 0; k < c.Budget(300, 10000); k++ {
+	for k := 0; k < c.Budget(200, 5000); k++ {
 		p := c12Profile(r, false)
 		for _, m := range p.Mapping {
 			if r.P(2, 3) {
@@ -492,7 +504,7 @@ func runC12(c *Ctx) {
 	}
 	// 3. function ids right below 2^64 (the id headroom hypothesis fails: validity is not demanded,
 	//    the wrap-around itself is compared with the model)
-	for k := 0; k < c.Budget(40, 1000); k++ {
+	for k := 0; k < c.Budget(30, 500); k++ {
 		p := c12Profile(r, true)
 		ms := c12Sources_(r, p)
 		c12Sym(c, "id-wrap", PickS(r, []string{"", "local", "remote:force", "force"}), p, ms, c12ScriptGen(r, p, ms, 20))
@@ -509,6 +521,17 @@ func runC12(c *Ctx) {
 		script := []c12Answer{{}, {}, {Frames: []plugin.Frame{{Func: "<lambda>", File: "a.cc", Line: 3}}}, {Frames: []plugin.Frame{{Func: "g", File: "a.cc", Line: 4}}}}
 		c12Sym(c, "repaired-F12-F13", "local", p, plugin.MappingSources{}, script)
 	}
+	{
+		p := &profile.Profile{SampleType: []*profile.ValueType{{Type: "samples", Unit: "count"}}}
+		m := &profile.Mapping{ID: 1, Start: 0x1000, Limit: 0x2000, File: "/bin/app"}
+		f := &profile.Function{ID: 2, Name: "<unknown>", SystemName: "<unknown>"}
+		l1 := &profile.Location{ID: 1, Mapping: m, Address: 0x1100, Line: []profile.Line{{Function: f}}}
+		l2 := &profile.Location{ID: 2, Mapping: m, Address: 0x1200}
+		p.Mapping, p.Function, p.Location = []*profile.Mapping{m}, []*profile.Function{f}, []*profile.Location{l1, l2}
+		p.Sample = []*profile.Sample{{Location: []*profile.Location{l1, l2}, Value: []int64{1}}}
+		ms := plugin.MappingSources{"/bin/app": []c12Source{{"http://host/debug/pprof/profile", 0x1000}}}
+		c12Sym(c, "repaired-F12-F13", "remote", p, ms, []c12Answer{{Body: "0x1200 <lambda>\n"}})
+	}
 	// 5. direct calls of the pure helpers
 	ext := []uint64{0, 1, 2, 0x1000, 1<<63 - 1, 1 << 63, 1<<63 + 1, math.MaxUint64 - 1, math.MaxUint64, 1 << 32}
 	adj := func(a uint64, o int64) {
@@ -521,7 +544,7 @@ func runC12(c *Ctx) {
 			adj(a, -int64(o))
 		}
 	}
-	for k := 0; k < c.Budget(300, 20000); k++ {
+	for k := 0; k < c.Budget(200, 20000); k++ {
 		a, o := r.U64()>>uint(r.Intn(64)), r.I64()>>uint(r.Intn(64))
 		if r.P(1, 3) {
 			a = PickU(r, ext) + uint64(r.Intn(5)) - 2
@@ -536,7 +559,7 @@ func runC12(c *Ctx) {
 	}
 	// regular expression of symbolz answers: lines over a small alphabet around the syntax
 	alpha := []string{"0", "x", "0x", "1f", "A", "g", " ", "\t", "\r", "\f", "\v", "  ", "name", "0x1", "X", "+", "\xff"}
-	for k := 0; k < c.Budget(500, 20000); k++ {
+	for k := 0; k < c.Budget(300, 20000); k++ {
 		var sb strings.Builder
 		for j := r.Intn(8); j > 0; j-- {
 			sb.WriteString(PickS(r, alpha))
@@ -551,7 +574,7 @@ func runC12(c *Ctx) {
 	}
 	// removeMatching / looksLikeDemangledCPlusPlus over names built from brackets
 	br := []string{"(", ")", "<", ">", "a", "::", "b", "[", "]", ".<", "]).", ""}
-	for k := 0; k < c.Budget(500, 20000); k++ {
+	for k := 0; k < c.Budget(300, 20000); k++ {
 		var name string
 		if r.P(1, 4) {
 			name = PickS(r, c12SysNames)
